@@ -166,6 +166,12 @@ def zero_width_form(c, rng):
 
 def the_regex(c):
     enz = c.get("zw") or c["enz"]
+    if c.get("icase"):
+        # a compiled enzyme whose behaviour depends on its flags: the digest must cut where THIS pattern matches
+        key = ("icase", enz)
+        if key not in _COMPILED:
+            _COMPILED[key] = re.compile(enz, re.IGNORECASE)
+        return _COMPILED[key]
     if c.get("compiled"):
         if enz not in _COMPILED:
             _COMPILED[enz] = re.compile(enz)
@@ -211,16 +217,24 @@ def cls_atom(neg, letters):
     return common.Atom(("n" if neg else "p") + letters)
 
 
+def fold_case(letters, c):
+    """the letters a class stands for when the enzyme is compiled with re.IGNORECASE"""
+    if not c.get("icase"):
+        return letters
+    return letters + "".join(ch.lower() for ch in letters if ch.lower() not in letters)
+
+
 def wire(op, c):
     if is_pattern(c):
         pat = pat_of(c)
         la = pat["la"] if pat["la"] is not None else [False, False, ""]
-        return req(op + "p", [cls_atom(n, l) for n, l in pat["classes"]], bool(la[0]), cls_atom(la[1], la[2]),
+        return req(op + "p", [cls_atom(n, fold_case(l, c)) for n, l in pat["classes"]], bool(la[0]),
+                   cls_atom(la[1], fold_case(la[2], c)),
                    common.Atom("q" + c["seq"]), c["mc"], c["lo"], c["hi"], c["clip"], c["semi"])
     cls, nn = ENZYMES[c["enz"]]
     if op == "digestspec" and c["lo"] < 1:
         op = "digestspec0"   # all-bounds specification (min_length = 0 included)
-    return req(op, common.Atom("q" + cls), common.Atom("q" + nn), common.Atom("q" + c["seq"]),
+    return req(op, common.Atom("q" + fold_case(cls, c)), common.Atom("q" + fold_case(nn, c)), common.Atom("q" + c["seq"]),
                c["mc"], c["lo"], c["hi"], c["clip"], c["semi"])
 
 
@@ -297,6 +311,7 @@ def eval_cases(chk, cases, detail=True):
             chk.count("enzyme", c["enz"] if (not pat or c["enz"] in PATTERNS) else "(random pattern)")
             chk.count("enzyme_written_as", "look-around only (empty matches)" if c.get("zw") else "consuming")
             chk.count("compiled_regex", bool(c.get("compiled")))
+            chk.count("compiled_with_IGNORECASE", bool(c.get("icase")))
             chk.count("mc", c["mc"])
             chk.count("clip", c["clip"])
             chk.count("semi", c["semi"])
@@ -500,7 +515,12 @@ def gen_case(rng, nmax=160):
              clip=rng.random() < 0.5, semi=rng.random() < 0.5)
     if pat is not None and enz not in PATTERNS:
         c["pat"] = pat
-    if rng.random() < 0.2:
+    if rng.random() < 0.08:
+        # soft-masked (lower-case) residues and an enzyme compiled with re.IGNORECASE
+        c["icase"] = True
+        c["compiled"] = True
+        c["seq"] = "".join(ch.lower() if rng.random() < 0.4 else ch for ch in c["seq"])
+    elif rng.random() < 0.2:
         zw = zero_width_form(c, rng)
         if zw is not None:
             c["zw"] = zw
@@ -514,6 +534,8 @@ def gen_case(rng, nmax=160):
             c[k] = DEFAULTS[k]
         if "enz" in omit:
             c["compiled"] = False
+            c.pop("icase", None)      # the default enzyme is a plain string pattern
+            c.pop("zw", None)
         c["call"] = "omit"
         c["omit"] = omit
     return c
